@@ -157,19 +157,39 @@ def _norm_twin(fn: ast.AST) -> str:
     f.decorator_list = [d for d in f.decorator_list]
     body = [s for s in f.body if not (isinstance(s, ast.Expr) and isinstance(s.value, ast.Constant) and isinstance(s.value.value, str))]
     f.body = body or [ast.Pass()]
-    # shape normal form: trailing `if c: REST` == guard clause `if not c: return; REST`; a > b == b < a
-    from ..canon import _negate
+    # shape normal form ("else-ified"): `if c: A(leaves); REST` == `if c: A else: REST`; trailing
+    # bare returns dropped; `if c: <nothing> else: B` == `if not c: B`; a > b == b < a
+    from ..canon import _leaves_block, _negate
 
-    changed = True
-    while changed:
-        changed = False
-        last = f.body[-1] if f.body else None
-        if isinstance(last, ast.If) and not last.orelse and not (len(last.body) == 1 and isinstance(last.body[0], ast.Return)):
-            guard = ast.If(test=_negate(last.test), body=[ast.Return(value=None)], orelse=[])
-            f.body = f.body[:-1] + [guard] + last.body
-            changed = True
-    if f.body and isinstance(f.body[-1], ast.Return) and f.body[-1].value is None and len(f.body) > 1:
-        f.body = f.body[:-1]
+    def elsify(block):
+        out = []
+        for i_, st in enumerate(block):
+            if isinstance(st, ast.If):
+                st.body = elsify(st.body)
+                st.orelse = elsify(st.orelse)
+                if not st.orelse and _leaves_block(st.body) and i_ + 1 < len(block):
+                    st.orelse = elsify(block[i_ + 1 :])
+                    out.append(st)
+                    break
+            out.append(st)
+        return out
+
+    def strip_tail(block):
+        while block and isinstance(block[-1], ast.Return) and (block[-1].value is None or (isinstance(block[-1].value, ast.Constant) and block[-1].value.value is None)):
+            block = block[:-1]
+        if block and isinstance(block[-1], ast.If):
+            last = block[-1]
+            last.body = strip_tail(last.body)
+            last.orelse = strip_tail(last.orelse)
+            if not last.body and last.orelse:
+                last.test, last.body, last.orelse = _negate(last.test), last.orelse, []
+            if not last.body and not last.orelse:
+                block = block[:-1] + [ast.Expr(value=last.test)]
+            elif not last.body:
+                last.body = [ast.Pass()]
+        return block
+
+    f.body = strip_tail(elsify(f.body)) or [ast.Pass()]
     for n in ast.walk(f):
         if isinstance(n, ast.Compare) and len(n.ops) == 1 and isinstance(n.ops[0], (ast.Gt, ast.GtE)):
             n.left, n.comparators = n.comparators[0], [n.left]
